@@ -328,9 +328,15 @@ def oneshot(rng, T, roots, fail=(), gated=True, tag='os', cap=None, hang_s=None,
                 for t in sorted(started2 & ok1):
                     if T[t]['kind'] == 'build':
                         bad('C03', '%s completed in the first run, nothing was touched, yet its script ran again in the second run' % t)
+                err2 = run2.stderr()
                 for t in sorted(failed):
-                    reachable2 = not (tdeps(T, t) & failed) or gated
-                    if t in clo and t not in started2 and not (tdeps(T, t) & (failed - started2)):
+                    # ungated: the second run stops at the FIRST script that fails again; a sibling that did not complete in the
+                    # first run may then never be started — excused unless zinoma says it skipped it
+                    aborted_by_other = (not gated and run2.exit_code not in (0, None) and
+                                        any(k == 'end' and x != t and x in failed and st != '0' for k, x, st in tr2))
+                    skipped_t = (' %s - Build skipped' % t) in err2
+                    if t in clo and t not in started2 and not (tdeps(T, t) & (failed - started2)) and \
+                            (skipped_t or not aborted_by_other):
                         bad('C05', '%s did not complete in the first run (status %s) but the second run did not run its script again'
                             % (t, fail.get(t)))
                         bad('C02', '%s was skipped in the second run although it never ran to successful completion' % t)
